@@ -154,7 +154,7 @@ func (e *Engine) builtinWrites(x *Exec, name string, c *ssa.CallCommon, w *write
 	case "(*sync/atomic.Int64).Store", "(*sync/atomic.Int64).Add":
 		x.addrRoot(c.Args[0], w)
 	case "maps.Clone":
-		if mt, ok := types.Unalias(c.Args[0].Type()).Underlying().(*types.Map); ok {
+		if mt, ok := under(c.Args[0].Type()).(*types.Map); ok {
 			dk, _, vk, _ := x.mapKeys(mt)
 			w.keys[dk] = true
 			w.keys[vk] = true
@@ -339,7 +339,7 @@ func bSortSearch(b *bctx) (Val, *State) {
 func bMapsClone(b *bctx) (Val, *State) {
 	x := b.x
 	m := b.args[0]
-	mt := types.Unalias(m.T).Underlying().(*types.Map)
+	mt := under(m.T).(*types.Map)
 	dk, ds, vk, vs := x.mapKeys(mt)
 	ref := x.freshRef()
 	h := x.heapGet(b.st, dk, ds)
